@@ -232,6 +232,38 @@ PARAM_NAMES = ["list", "n", "number", "string", "input", "pattern", "flags", "re
 SMALL = ["null", "0", "1", "-1", "-5", "2", "1.5", "18446744073709551615", "huge", '"abc"', "nuls", '"."', "[1, 2, 3]", 'duration("P2D")', "l", "s"]
 
 
+TYPES = ["number", "string", "boolean", "date", "time", "date and time", "days and time duration", "years and months duration", "list<number>", "list<list<string>>", "context<a: number>",
+         "function<number>->number", "range<number>", "Any", "Null"]
+
+
+def edge_texts():
+    """shapes whose size is small but whose arithmetic sits on a boundary"""
+    out = []
+    # typed formal parameters: every argument of the extreme alphabet is coerced to every type, positionally and by name
+    for ty in TYPES:
+        for a in ARG_TEXTS:
+            out.append("{f: function(x: %s) x, r: f(%s)}.r" % (ty, a))
+            out.append("{f: function(x: %s, y: %s) [x, y], r: f(y: %s, x: %s)}.r" % (ty, ty, a, a))
+    # iteration ranges of 1-3 steps at the edges of the integer types and of decimal128, ascending and descending
+    edges = ["0", "127", "128", "255", "256", "32767", "32768", "65535", "65536", "2147483647", "2147483648", "4294967295", "4294967296", "9223372036854775806", "9223372036854775807", "9223372036854775808",
+             "18446744073709551614", "18446744073709551615", "18446744073709551616", "99999999999999999999999999999999998", "9999999999999999999999999999999999", "1e30", "1e6144", "0.5", "1.5"]
+    for e in edges:
+        for lo, hi in (("%s" % e, "%s + 1" % e), ("%s - 1" % e, "%s" % e), ("-(%s) - 1" % e, "-(%s)" % e), ("-(%s)" % e, "-(%s) + 1" % e), ("%s + 1" % e, "%s - 1" % e), ("%s" % e, "%s" % e)):
+            out.append("for i in %s..%s return i" % (lo, hi))
+            out.append("some i in %s..%s satisfies i > 0" % (lo, hi))
+            out.append("for i in 1..2, j in %s..%s return i + j" % (lo, hi))
+            out.append("count(for i in (%s)..(%s) return 1)" % (lo, hi))
+    # sort() with ordering functions that are not strict weak orders, on lists long enough for every algorithm path
+    lists = ["for i in 1..50 return i", "for i in 1..50 return modulo(i * 7, 11)", "for i in 1..21 return -i", "for i in 1..64 return if modulo(i, 3) = 0 then null else i", "for i in 1..30 return \"s\" + string(modulo(i, 4))", "[3, 1, 2]", "[]", "[1]", "nestl", "bigl"]
+    orders = ["function(x, y) true", "function(x, y) false", "function(x, y) null", "function(x, y) 1", "function(x, y) modulo(x + y, 3) = 0", "function(x, y) x != y", "function(x, y) x >= y", "function(x, y) modulo(x, 2) < modulo(y, 2)",
+              "function(x, y) x < y", "function(x, y) y < x", "function(x) true", "function(x, y, z) true", "function(x, y) sort([y, x], function(a, b) a < b)[1] = x", "abs", "null", "1"]
+    for l in lists:
+        for o in orders:
+            out.append("sort(%s, %s)" % (l, o))
+            out.append("sort(list: %s, precedes: %s)" % (l, o))
+    return out
+
+
 def _str_pairs():
     words = ["\u017c\u00f3\u0142w", "a\u20acb", "\U0001F600x", "x\U0001F600", "a\u00e9\U0001F600\u20acz", "e\u0301a", "\u00df\u00df", "\u0130i", "\u20ac\u20ac\u20ac", "ab\u00e9"]
     out = []
@@ -348,6 +380,7 @@ def run(rep, tier, seed):
     texts_by_class["unicode"] = unicode_texts(rng, 1500 if tier == "quick" else 60000)
     texts_by_class["deep"] = deep_texts()
     texts_by_class["token-pairs"] = token_pair_texts()
+    texts_by_class["edge"] = edge_texts()
     if tier == "thorough":
         _libfuzzer_class(rep, texts_by_class, seed)
     texts_by_class["bif"] = bif_sweep(rng, bifs, tier)
